@@ -202,3 +202,85 @@ pub fn run_c05(out: &mut Out, seed: u64, thorough: bool) {
         }
     }
 }
+
+// ---------------------------------------------------------------------------------------------
+// C07: resets and load after arbitrary histories.
+
+/// A program that touches RAM and 0xFC-0xFF only (direct addressing, stack in RAM).
+pub fn confined_program(rng: &mut Rng) -> Vec<u8> {
+    let mut p: Vec<u8> = vec![0xFB, 0xE0 + rng.byte() % 0x10, 0x40]; // LDSP const
+    let n = 6 + rng.below(30);
+    for _ in 0..n {
+        let r = rng.byte() & 3;
+        let r = if r == 3 { 0 } else { r };
+        match rng.below(12) {
+            0 => p.extend(&[0xFB, rng.byte(), 0x10 + r]),                       // LD Rr, const
+            1 => p.extend(&[0xFF, 0xFC + rng.byte() % 4, 0x10 + r]),            // LD Rr, (input reg)
+            2 => p.extend(&[0xF0 + r, 0x1F, 0xFE + rng.byte() % 2]),            // ST (FE/FF), Rr
+            3 => p.extend(&[0xF0 + r, 0x1F, 0x40 + rng.byte() % 0x80]),         // ST (ram), Rr
+            4 => p.extend(&[0xFF, 0x40 + rng.byte() % 0x80, 0x10 + r]),         // LD Rr, (ram)
+            5 => p.push(0x60 + (rng.byte() % 3) * 4 + rng.byte() % 3),          // ADD
+            6 => p.push(0x44 + r),                                              // INC
+            7 => p.push(0x10 + r),                                              // PUSH
+            8 => p.push(0x14 + r),                                              // POP
+            9 => p.push(0xB0 + (rng.byte() % 3) * 4 + rng.byte() % 3),          // MUL
+            10 => p.push(0x80 + (rng.byte() % 3) * 4 + rng.byte() % 3),         // SUB
+            _ => p.push(0x02),
+        }
+    }
+    // loop forever: JR to start+3
+    let here = p.len() as u8;
+    p.extend(&[0x20, 3u8.wrapping_sub(here.wrapping_add(2))]);
+    p
+}
+
+pub fn run_c07(out: &mut Out, seed: u64, thorough: bool) {
+    let mut rng = Rng::new(seed);
+    let cases = if thorough { 1500 } else { 150 };
+    for _ in 0..cases {
+        let mut s = Sess::new();
+        run_line(out, &mut s, "new");
+        let hist = 20 + rng.below(200);
+        for i in 0..hist {
+            let line = match rng.below(20) {
+                0 => load_line(&mut rng),
+                1 => "cpureset".to_string(),
+                2 => "masterreset".to_string(),
+                3 | 4 | 5 | 6 => stimulus(&mut rng),
+                7 => {
+                    // program-driven port writes: run a few edges of a program that stores to 0xF0-0xFB
+                    let a = 0xF0 + rng.byte() % 12;
+                    format!("load 16 255 fb{:02x}10f01f{:02x}20fb", rng.byte(), a)
+                }
+                _ => "edge".to_string(),
+            };
+            run_line(out, &mut s, &line);
+            // every prefix is followed by each kind of reset (on a copy), compared with the specification
+            if i % 3 == 0 || line != "edge" {
+                run_line(out, &mut s, "spec.cpureset");
+                run_line(out, &mut s, "spec.masterreset");
+            }
+            if i % 5 == 0 {
+                run_line(out, &mut s, "d");
+            }
+        }
+        // follow-up programs: reloaded here vs a newly created machine, lock-step
+        for _ in 0..3 {
+            let p = confined_program(&mut rng);
+            let ss = *rng.pick(&["0", "16", "32", "48", "64", "N"]);
+            let ps = *rng.pick(&["A", "N", "255"]);
+            let l = format!("spec.reload {} {} {} {}", ss, ps, hexs(&p), 600);
+            if out.samples.len() < 3 {
+                out.sample(l.clone());
+            }
+            run_line(out, &mut s, &l);
+        }
+        // model correspondence of load and resets themselves
+        run_line(out, &mut s, &load_line(&mut rng));
+        run_line(out, &mut s, "d");
+        run_line(out, &mut s, "ram");
+        run_line(out, &mut s, "masterreset");
+        run_line(out, &mut s, "d");
+        run_line(out, &mut s, "ram");
+    }
+}
